@@ -417,11 +417,15 @@ static void _preextrapolate_helper(vorbis_dsp_state *v){
   int i;
   int order=16;
   float *lpc=alloca(order*sizeof(*lpc));
-  float *work=alloca(v->pcm_current*sizeof(*work));
+  float *work;
   long j;
   v->preextrapolate=1;
 
   if(v->pcm_current-v->centerW>order*2){ /* safety */
+    /* the first submission may be arbitrarily large: the scratch copy
+       of the whole buffer does not belong on the stack */
+    work=_ogg_malloc(v->pcm_current*sizeof(*work));
+    if(!work)return;
     for(i=0;i<v->vi->channels;i++){
       /* need to run the extrapolation in reverse! */
       for(j=0;j<v->pcm_current;j++)
@@ -451,6 +455,7 @@ static void _preextrapolate_helper(vorbis_dsp_state *v){
         v->pcm[i][v->pcm_current-j-1]=work[j];
 
     }
+    _ogg_free(work);
   }
 }
 
